@@ -6,7 +6,10 @@
    sub-element under every version, wrong / missing end tag, sequences of length 0, 1, 3.
    The descriptors are concretised by tools/docgen.py; the outcome of every document is decided by
    Parser.tla (Trace_Parser). *)
-EXTENDS Grammar, Json, Sequences, Integers
+EXTENDS Grammar, Json, Sequences, Integers, FiniteSets
+
+RECURSIVE SetToSeq(_)
+SetToSeq(S) == IF S = {} THEN <<>> ELSE LET x == CHOOSE y \in S : TRUE IN <<x>> \o SetToSeq(S \ {x})
 
 VARIABLE sc
 Tags == DOMAIN Elem \ {"A2L_FILE"}
@@ -33,9 +36,21 @@ CasesOf(e) ==
           THEN {[k |-> "end_tag", e |-> e], [k |-> "no_end", e |-> e], [k |-> "extra_token", e |-> e]} ELSE {})
     \cup (IF el.form = "block" /\ el.kids # <<>> THEN {[k |-> "unknown_kid", e |-> e, form |-> f] : f \in {"keyword", "block"}} ELSE {})
 
+\* C06: documents with two or three recoverable problems of different classes on known lines
+FaultClasses == {"unknown", "toomany", "strforid", "badident", "toonew_block", "toonew_enum", "wrongend",
+                 "trailing", "badversion", "deprecated", "norepeated"}
+MultiCases == {[k |-> "multi", faults |-> F] : F \in {G \in SUBSET FaultClasses : Cardinality(G) \in {2, 3}}}
+\* C07: an unknown element between the sub-elements of every block that admits optional sub-elements
+Payloads == {"kw0", "kw_num", "kw_str_ident", "kw3", "blk_empty", "blk_scalars", "blk_nested1", "blk_nested2",
+             "blk_known_inside", "blk_comment", "kw_comment", "blk_unbalanced_inner_kw"}
+SkipCases(e) == {[k |-> "skip", e |-> e, nkids |-> n, at |-> a, payload |-> p] : n \in 0..2, a \in 0..2, p \in Payloads}
+
 Init == sc = [stage |-> 0]
 Next == \/ sc.stage = 0 /\ \E e \in Tags : sc' = [stage |-> 1, e |-> e]
         \/ sc.stage = 1 /\ \E c \in CasesOf(sc.e) : sc' = [stage |-> 2, c |-> c]
+        \/ sc.stage = 0 /\ \E c \in MultiCases : sc' = [stage |-> 2, c |-> [k |-> c.k, faults |-> SetToSeq(c.faults)]]
+        \/ sc.stage = 0 /\ \E e \in {t \in Tags : Elem[t].form = "block" /\ Elem[t].kids # <<>>} : sc' = [stage |-> 3, e |-> e]
+        \/ sc.stage = 3 /\ \E c \in {x \in SkipCases(sc.e) : x.at <= x.nkids} : sc' = [stage |-> 2, c |-> c]
         \/ sc.stage = 0 /\ \E w \in {"no_version", "bad_version", "version_garbled", "trailing", "empty_project_missing", "two_projects"} :
                sc' = [stage |-> 2, c |-> [k |-> "file", what |-> w]]
 Spec == Init /\ [][Next]_sc
